@@ -90,6 +90,30 @@ pub struct RawCase {
     /// tick of the leading keyframe inserted by the strategy (recordings that do not start at zero)
     #[serde(default)]
     pub start: u64,
+    /// (op index, n): the op at that index is issued n more times in a row (relative timestamps advance by themselves;
+    /// a rejected call repeated n times is a rejection burst).  Keeps long histories compact in replay files.
+    #[serde(default)]
+    pub repeat: Vec<(u16, u16)>,
+}
+
+impl RawCase {
+    pub fn expanded_ops(&self) -> std::borrow::Cow<'_, [ROp]> {
+        if self.repeat.is_empty() {
+            return std::borrow::Cow::Borrowed(&self.ops[..]);
+        }
+        let mut out = Vec::new();
+        for (i, op) in self.ops.iter().enumerate() {
+            out.push(op.clone());
+            for &(at, n) in &self.repeat {
+                if at as usize == i && !matches!(op, ROp::Finish(_)) {
+                    for _ in 0..n {
+                        out.push(op.clone());
+                    }
+                }
+            }
+        }
+        std::borrow::Cow::Owned(out)
+    }
 }
 
 #[derive(Clone, Debug, PartialEq)]
@@ -128,6 +152,12 @@ pub struct ModelState {
     pub a_last_delta: u64,
     /// after an Either verdict the model state may differ from the implementation: stop judging
     pub desynced: bool,
+    /// the last accepted timestamp of the track sits on a half-tick tie: its tick is known only to within one
+    pub last_vtick_tie: bool,
+    pub last_atick_tie: bool,
+    /// some accepted sample of the track sits on a half-tick tie (track totals are known only to within two ticks)
+    pub v_tie_seen: bool,
+    pub a_tie_seen: bool,
 }
 
 pub fn raw_ccfg(c: &RawCase) -> CCfg {
@@ -350,7 +380,8 @@ pub fn interpret(c: &RawCase, decisions: &std::collections::BTreeMap<usize, bool
     let mut st = ModelState::default();
     let mut steps = Vec::new();
     let audio_cfg = cfg.has_audio();
-    for (i, op) in c.ops.iter().enumerate() {
+    let expanded = c.expanded_ops();
+    for (i, op) in expanded.iter().enumerate() {
         let idx = i as u64;
         match op {
             ROp::Video { ts, frame, key } => {
@@ -418,8 +449,8 @@ pub fn interpret(c: &RawCase, decisions: &std::collections::BTreeMap<usize, bool
                     (Some(f), Some(l)) => (l - f) as u128 + d as u128,
                     _ => 0,
                 };
-                let too_long = total(st.v_first_tick, st.last_vtick, st.v_last_delta) > u32::MAX as u128
-                    || total(st.a_first_tick, st.last_atick, st.a_last_delta) > u32::MAX as u128;
+                let too_long = total(st.v_first_tick, st.last_vtick, st.v_last_delta) + 2 * st.v_tie_seen as u128 > u32::MAX as u128
+                    || total(st.a_first_tick, st.last_atick, st.a_last_delta) + 2 * st.a_tie_seen as u128 > u32::MAX as u128;
                 let v = if st.finished {
                     Verdict::MustReject([ErrClass::Finished].into_iter().collect())
                 } else if st.desynced {
@@ -505,8 +536,11 @@ fn judge_video(st: &ModelState, cfg: &CCfg, pts: f64, dts: Option<f64>, frame: &
                     reject(&mut v, VideoOrder);
                 }
             } else {
-                if te.tick - last > u32::MAX as u64 {
+                let slack = st.last_vtick_tie as u64 + te.tie as u64;
+                if te.tick - last > u32::MAX as u64 + slack {
                     reject(&mut v, DurationOverflow);
+                } else if te.tick - last + slack > u32::MAX as u64 {
+                    either.get_or_insert("half_tick_tie".into());
                 }
                 // documented f64 rules of the entry point
                 match dts {
@@ -573,6 +607,8 @@ fn apply_video(st: &mut ModelState, v: &Verdict, pts: f64, dts: Option<f64>, tic
                 st.v_first_tick = Some(tick);
             }
             st.last_vtick = Some(tick);
+            st.last_vtick_tie = ticks_exact(dts.unwrap_or(pts)).tie;
+            st.v_tie_seen |= st.last_vtick_tie;
             if st.first_vpts.is_none() {
                 st.first_vpts = Some(pts);
                 st.first_vpts_tick = Some(ticks_exact(pts).tick);
@@ -616,8 +652,12 @@ fn judge_audio(st: &ModelState, audio_cfg: bool, pts: f64, data: &[u8], framing_
             if pts < l {
                 reject(&mut v, AudioOrder);
             } else if let Some(lt) = st.last_atick {
-                if te.tick > lt && te.tick - lt > u32::MAX as u64 {
+                // a timestamp on a half-tick tie is known only to within one tick: the 32-bit gap rule is judged with that slack
+                let slack = st.last_atick_tie as u64 + te.tie as u64;
+                if te.tick > lt && te.tick - lt > u32::MAX as u64 + slack {
                     reject(&mut v, DurationOverflow);
+                } else if te.tick > lt && te.tick - lt + slack > u32::MAX as u64 {
+                    either.get_or_insert("half_tick_tie".into());
                 }
                 if te.tick < lt {
                     either.get_or_insert("half_tick_tie".into());
@@ -678,6 +718,8 @@ fn apply_audio(st: &mut ModelState, v: &Verdict, pts: f64, tick: u64, decided: O
                 st.a_first_tick = Some(tick);
             }
             st.last_atick = Some(tick);
+            st.last_atick_tie = ticks_exact(pts).tie;
+            st.a_tie_seen |= st.last_atick_tie;
             st.n_audio += 1;
         }
         false => {}
@@ -777,7 +819,7 @@ pub fn raw_case_strategy(max_ops: usize, finish_weight: u32) -> impl Strategy<Va
                 // most histories start with a proper first keyframe so that later calls reach deeper states
                 ops.insert(0, ROp::Video { ts: Ts::Abs(start, 0), frame: VF { kind: VKind::KeyCfg, size: 20, shape: 1 }, key: true });
             }
-            RawCase { codec, video_configured, audio, rate_idx, channels, fast_start, title, ops, start }
+            RawCase { codec, video_configured, audio, rate_idx, channels, fast_start, title, ops, start, repeat: vec![] }
         })
 }
 
@@ -786,4 +828,88 @@ fn huge_audio_ts(pts: f64) -> bool {
         let t = ticks_exact(pts);
         t.huge || t.tick >= (1u64 << 53)
     }
+}
+
+
+// ------------------------------------------------------------------------------------------
+// fixed list: rejection bursts and long histories after a rejection
+
+pub const BURST_NOTE: &str = "fixed list: every kind of rejected call (garbage / corrupt / empty / backwards / NaN audio, garbage encode_audio, \
+     same-timestamp / empty / NaN / dts-backwards video, empty encode_video) repeated 1, 63, 64, 65, 300 times in a row between accepted frames \
+     of all framing variants (AAC with and without CRC, Opus); and 4 300 / 70 000 accepted frames (explicit and automatic timestamps) after a rejected call";
+
+pub fn burst_cases(_t: crate::engine::Tier) -> Vec<RawCase> {
+    let vkey = |ts: Ts| ROp::Video { ts, frame: VF { kind: VKind::KeyCfg, size: 24, shape: 0 }, key: true };
+    let vdelta = |ts: Ts, shape: u8| ROp::Video { ts, frame: VF { kind: VKind::Delta, size: 9, shape }, key: false };
+    let aud = |ts: Ts, kind: AKind, shape: u8| ROp::Audio { ts, frame: AF { kind, size: 11, shape } };
+    let mut out = Vec::new();
+    let rejected: Vec<ROp> = vec![
+        aud(Ts::Rel(1920, 0), AKind::Garbage, 0),
+        aud(Ts::Rel(1920, 0), AKind::Corrupt(1), 1),
+        aud(Ts::Rel(1920, 0), AKind::Corrupt(3), 0),
+        aud(Ts::Rel(1920, 0), AKind::Corrupt(5), 1),
+        aud(Ts::Rel(1920, 0), AKind::Empty, 0),
+        aud(Ts::Rel(-5, 0), AKind::Valid, 0),
+        aud(Ts::NaN, AKind::Valid, 1),
+        ROp::EncAudio { frame: AF { kind: AKind::Garbage, size: 11, shape: 0 }, samples: 1024 },
+        vdelta(Ts::Rel(0, 0), 0),
+        ROp::Video { ts: Ts::Rel(3000, 0), frame: VF { kind: VKind::Empty, size: 0, shape: 0 }, key: false },
+        vdelta(Ts::NaN, 0),
+        ROp::VideoDts { pts: Ts::Rel(3000, 0), dts: Ts::Rel(-1, 0), frame: VF { kind: VKind::Delta, size: 9, shape: 0 }, key: false },
+        ROp::EncVideo { frame: VF { kind: VKind::Empty, size: 0, shape: 0 }, ms: 33 },
+    ];
+    for (k, rej) in rejected.iter().enumerate() {
+        for (j, &n) in [1u16, 63, 64, 65, 300].iter().enumerate() {
+            for audio in [1u8, 7] {
+                let mut ops = vec![vkey(Ts::Abs(0, 0)), aud(Ts::RelFirstVideo(0, 0), AKind::Valid, 0), aud(Ts::Rel(1920, 0), AKind::Valid, 1)];
+                let first_burst = ops.len();
+                ops.push(rej.clone());
+                for sh in 0..16u8 {
+                    ops.push(aud(Ts::Rel(1920, 0), AKind::Valid, sh.wrapping_mul(17)));
+                }
+                ops.push(vdelta(Ts::Rel(3000, 0), 1));
+                ops.push(vdelta(Ts::Rel(3000, 0), 2));
+                let second_burst = ops.len();
+                ops.push(rej.clone());
+                ops.push(vdelta(Ts::Rel(3000, 0), 3));
+                ops.push(aud(Ts::Rel(1920, 0), AKind::Valid, 4));
+                ops.push(ROp::Finish(1));
+                out.push(RawCase {
+                    codec: ((k + j) % 4) as u8,
+                    video_configured: true,
+                    audio,
+                    rate_idx: 3,
+                    channels: 1,
+                    fast_start: (k + j) % 2 == 0,
+                    title: None,
+                    ops,
+                    start: 0,
+                    repeat: vec![(first_burst as u16, n - 1), (second_burst as u16, n - 1)],
+                });
+            }
+        }
+    }
+    // long runs of accepted frames after a rejected call
+    for (n, audios) in [(4300u16, vec![1u8, 7]), (65_535u16, vec![1u8])] {
+        for audio in audios {
+            for enc in [false, true] {
+                let good = if enc { ROp::EncAudio { frame: AF { kind: AKind::Valid, size: 7, shape: 1 }, samples: 1024 } } else { aud(Ts::Rel(1920, 0), AKind::Valid, 1) };
+                let bad = if enc { ROp::EncAudio { frame: AF { kind: AKind::Garbage, size: 7, shape: 0 }, samples: 1024 } } else { aud(Ts::Rel(1920, 0), AKind::Garbage, 0) };
+                let ops = vec![vkey(Ts::Abs(0, 0)), good.clone(), bad, good.clone(), vdelta(Ts::Rel(3000, 0), 0), good, ROp::Finish(1)];
+                out.push(RawCase { codec: enc as u8, video_configured: true, audio, rate_idx: 3, channels: 1, fast_start: enc, title: None, ops, start: 0, repeat: vec![(1, 49), (3, n)] });
+                let (vgood, vbad, first) = if enc {
+                    (
+                        ROp::EncVideo { frame: VF { kind: VKind::Delta, size: 7, shape: 0 }, ms: 33 },
+                        ROp::EncVideo { frame: VF { kind: VKind::Empty, size: 0, shape: 0 }, ms: 33 },
+                        ROp::EncVideo { frame: VF { kind: VKind::KeyCfg, size: 24, shape: 0 }, ms: 33 },
+                    )
+                } else {
+                    (vdelta(Ts::Rel(3000, 0), 0), vdelta(Ts::Rel(0, 0), 0), vkey(Ts::Abs(0, 0)))
+                };
+                let ops = vec![first, vgood.clone(), vbad, vgood.clone(), aud(Ts::RelFirstVideo(0, 0), AKind::Valid, 0), vgood, ROp::Finish(0)];
+                out.push(RawCase { codec: 2 + enc as u8, video_configured: true, audio, rate_idx: 3, channels: 2, fast_start: !enc, title: None, ops, start: 0, repeat: vec![(1, 49), (3, n)] });
+            }
+        }
+    }
+    out
 }
